@@ -153,7 +153,7 @@ class C46(hc.PProp):
                 if line is None:
                     V.append(Violation('C46:forwarded-without-credentials', 'request %s with credentials %r was forwarded' % (rid, cred))); continue
                 t = fwd_time.get(rid, 0)
-                mine = [v for v in verdicts if v[1] == line and v[0] <= t + 1000]
+                mine = [v for v in verdicts if v[1] == line and v[0] <= t]   # a verdict counts once the helper has sent it (squid forwards only after reading it)
                 if not mine:
                     V.append(Violation('C46:forwarded-without-helper-approval', 'request %s (%s) was forwarded but the helper never approved exactly these credentials before that' % (rid, cred[0])))
                 elif mine[-1][2] != 'OK':
